@@ -20,10 +20,15 @@ RULE = ("boundary schedules first, for both RetryCertAfterInError settings: thre
         "send and on the poll; empty blocks / empty ranges; ranges cut by MaxCertSize to a prefix (1 byte, 300, 4000); claims-only "
         "certificates; pre-synced history with StartL2Block > 0 (start LER = the real tree's root there); certificate tables that exist "
         "before the sender starts (restart: last certificate settled / in error / pending; a row in error rebuilt from version-0 "
-        "metadata with FromBlock = 0, which must never be replaced). Then random walks of 20-60 "
+        "metadata with FromBlock = 0, which must never be replaced); process restarts for Agglayer headers with and without "
+        "prev_local_exit_root: crash between 'accepted by the Agglayer' and 'row stored' for a new height (last block holding a bridge), "
+        "for the first certificate, for a certificate that then goes InError and is replaced, and for a replacement (start-up check "
+        "refuses for ever); database lost while the latest certificate is pending / proven / in error / settled; plain restarts. "
+        "Then random walks of 20-60 "
         "events over {block with 0-2 bridges and 0-1 claims (30% empty, block numbers may skip), epoch tick and status tick with "
         "MaxCertSize from {0,1,200,400,3100,6000}, Agglayer moves its latest certificate (biased to the natural next stage, 25% InError), "
-        "move of a random certificate to a random status, next Agglayer call fails}, field values from {0,1,2^32-1 / 0x00,0xff..,random / "
+        "move of a random certificate to a random status, next Agglayer call fails, restart (1 in 3 with the database lost), 1 tick in 12 "
+        "crashing between accept and store}, field values from {0,1,2^32-1 / 0x00,0xff..,random / "
         "0,1,2^256-1,random}, metadata lengths {0,1,31,32,33,100,300}, global indexes mainnet / rollup / non-canonical / > 9 bytes. "
         "Thorough tier adds EVERY sequence of 6 symbols over {block, epoch, status, settle latest, latest InError} for both retry settings "
         "and every sequence of 5 symbols with 'next call fails' added. A case is non-trivial when the node submitted at least two "
@@ -38,7 +43,13 @@ ASSUMPTIONS = [
     "the exit tree is SOME function of the appended leaves (Section hypotheses t_add_repr / t_add_root; C01 proves the real tree is "
     "the reference Merkle root)",
     "block numbers and heights below 2^63 (SQLite integers); ranges shorter than 2^32 blocks for the metadata offset",
-    "one aggsender process, events of the loop handled one at a time (the Go select does this); crash/restart is C13",
+    "one aggsender process at a time, events of the loop handled one at a time (the Go select does this)",
+    "process restarts (same / lost certificate database, crash between 'accepted by the Agglayer' and 'row stored'): PARTIAL - events "
+    "of the executable model (xrstep, recovery = Model/Reconcile.v recover of C13), compared with the real restart + CheckInitialStatus "
+    "iteration and judged by the property predicates; the inductive theorems cover restart-free stretches from any state satisfying "
+    "Inv (incl. rows without stored previous LER: C02_inerror_prev_ler_fallback); no theorem that a restart re-establishes Inv. "
+    "Environment conventions: a scripted Agglayer failure does not outlive the process; while the start-up check is refused every "
+    "tick is another attempt; Agglayer headers carry metadata V2 and, per case, may or may not carry prev_local_exit_root",
     "aggchain-prover (FEP) flow: theorems *_fep_partial are proved over a model of flow_aggchain_prover.go that no correspondence run "
     "ties to the code (prover, optimistic mode and GER queries are not driven by the harness)",
 ]
@@ -130,9 +141,11 @@ def step(s):
             (bs if e["t"] == "b" else cs).append(bridge(e, i) if e["t"] == "b" else claim(e, i))
         return "XBlock %s %s %s" % (num(s.get("skip", 0)), clist(bs), clist(cs))
     if k == "epoch":
-        return "XEpoch %s" % num(s.get("max", 0))
+        return "%s %s" % ("XCrashEpoch" if s.get("crash") else "XEpoch", num(s.get("max", 0)))
     if k == "status":
-        return "XStatus %s" % num(s.get("max", 0))
+        return "%s %s" % ("XCrashStatus" if s.get("crash") else "XStatus", num(s.get("max", 0)))
+    if k == "restart":
+        return "XRestart %s" % cbool(s.get("lost", False))
     if k == "move":
         return "XMove %s %s" % (num(s.get("id", 0)), STATUS[s.get("st", 0)])
     if k == "movelast":
@@ -176,9 +189,11 @@ def coq_case(o):
         rows = json.dumps(so["rows"], sort_keys=True)
         rterm = "None" if rows == prev_rows else "(Some %s)" % clist([row_obs(r, t) for r in so["rows"] or []])
         prev_rows = rows
-        obs.append("(mkST %s %s %d)" % (clist([sub_obs(s, t) for s in so["subs"] or []]), rterm, so["synced"]))
-    body = "mkCase02 %s %d %s %s %s %s %s" % (
-        cbool(i["retry"]), i["start_block"], ler, clist([step(s) for s in i.get("pre") or []]),
+        rec = so.get("recov")
+        obs.append("(mkST %s %s %d %s)" % (clist([sub_obs(s, t) for s in so["subs"] or []]), rterm, so["synced"],
+                                           "None" if not rec else "(Some %s)" % cbool(rec == "refused")))
+    body = "mkCase02 %s %s %d %s %s %s %s %s" % (
+        cbool(i["retry"]), cbool(i.get("agg_prev", False)), i["start_block"], ler, clist([step(s) for s in i.get("pre") or []]),
         clist([row_obs(r, t) for r in o.get("seeds") or []]),
         clist([step(s) for s in i["steps"]]), clist(obs))
     return "(let T := %s in %s)" % (clist([hexnum(h) for h in t.vals]), body)
@@ -189,7 +204,7 @@ def n_subs(o):
 
 
 def nontrivial_key(o):
-    return None if n_subs(o) < 2 else [o["in"]["retry"], o["in"]["start_block"], o["in"].get("seeds"), o["in"]["steps"]]
+    return None if n_subs(o) < 2 else [o["in"]["retry"], o["in"].get("agg_prev"), o["in"]["start_block"], o["in"].get("seeds"), o["in"]["steps"]]
 
 
 def finding_key(o):
@@ -200,12 +215,14 @@ def distribution(outs):
     d = {"cases": len(outs), "events": 0, "blocks": 0, "epoch_ticks": 0, "status_ticks": 0, "agglayer_moves": 0,
          "scripted_failures": 0, "certificates_received": 0, "replacements_of_inerror": 0, "certificates_settled_max_per_case": 0,
          "cut_ranges": 0, "retry_true": 0, "retry_false": 0, "with_start_block": 0, "bridge_events": 0, "claim_events": 0,
-         "seeded_tables": 0, "loop_errors": {}, "by_tag": {}}
+         "seeded_tables": 0, "restarts_same_db": 0, "restarts_lost_db": 0, "crash_ticks": 0, "crash_ticks_with_certificate": 0,
+         "recoveries_refused": 0, "headers_with_prev_ler": 0, "loop_errors": {}, "by_tag": {}}
     for o in outs:
         i = o["in"]
         d["retry_true" if i["retry"] else "retry_false"] += 1
         d["with_start_block"] += 1 if i["start_block"] else 0
         d["seeded_tables"] += 1 if i.get("seeds") else 0
+        d["headers_with_prev_ler"] += 1 if i.get("agg_prev") else 0
         d["by_tag"][i.get("tag", "")] = d["by_tag"].get(i.get("tag", ""), 0) + 1
         heights = set()
         for s, so in zip(i["steps"], o["steps"]):
@@ -223,6 +240,13 @@ def distribution(outs):
                 d["agglayer_moves"] += 1
             elif k == "fail":
                 d["scripted_failures"] += 1
+            elif k == "restart":
+                d["restarts_lost_db" if s.get("lost") else "restarts_same_db"] += 1
+            if s.get("crash"):
+                d["crash_ticks"] += 1
+                d["crash_ticks_with_certificate"] += 1 if so.get("subs") else 0
+            if so.get("recov") == "refused":
+                d["recoveries_refused"] += 1
             if so.get("err"):
                 d["loop_errors"][so["err"].split(":")[0]] = d["loop_errors"].get(so["err"].split(":")[0], 0) + 1
             for sb in so.get("subs") or []:
@@ -249,7 +273,7 @@ LEVEL_TEXT = ("Kernel-checked inductive invariant of the send protocol (model of
 LEVEL_NOTE = ("Trusted: Coq kernel + vm_compute; the hand transcription of sendCertificates / CheckPendingCertificatesStatus / PPFlow / "
               "baseFlow into Model/AggsenderProtocol.v (validated by the event-by-event correspondence); the scripted Agglayer; SQLite. "
               "Partial: the aggchain-prover flow (theorems *_fep_partial, model only); goroutine scheduling and process crashes are not "
-              "modelled (C13 covers restarts). Recorded, not claimed (storage faults are outside C02's quantifier): if saveCertificateToStorage "
+              "modelled; restarts are executable-model + correspondence only (see assumptions). Recorded, not claimed (storage faults are outside C02's quantifier): if saveCertificateToStorage "
               "exhausts its retries after the Agglayer accepted the certificate, the loop goes on with a stale table and the next epoch "
               "submits a second certificate for the same height while the first is undecided (reproduced on the real loop with "
               "harness/aggsender/probe_store_exhaustion.jsonl; the code has a TODO there).")
